@@ -534,9 +534,117 @@ theorem int_float_exact_ok : Gen.Script.hasCmpIntFloat = true ∧
     Gen.Script.cmpSites = [("eq", 2, 0), ("neq", 2, 0), ("lt", 2, 0), ("gt", 2, 0), ("lte", 2, 0), ("gte", 2, 0)] := by
   decide
 
+/-- regression tripwire over the lines patched by 0a3fd2c: `==`, `!=` and `in` compare through `sameValue`
+(which answers false for an uncomparable left operand before using Go `==`) and nowhere with a raw `==`
+between the operands (before: 0 and 1 per clause) — the `uncmp = false` of `Dev.current` -/
+theorem iface_eq_fix_ok : Gen.Script.sameValueGuard = true ∧
+    Gen.Script.ifaceEqSites = [("eq", 1, 0), ("neq", 1, 0), ("in", 1, 0)] := by
+  decide
+
+/-- regression tripwire over the lines patched by 21415f8: the `float64` branch of `!=` only acts when the
+right operand is an int64 — the `neqFlt = false` of `Dev.current` -/
+theorem neq_float_fix_ok : Gen.Script.neqFloatGuarded = true := by decide
+
 theorem current_eq_fixed : Dev.current = Dev.fixed := rfl
 
-/-- evaluation of any non-empty program on any element never faults -/
+/-! ### No stack underflow on compiled templates
+
+`evalStack` reads a missing operand as nil (`getD … .null`), exactly as the Go loop does
+(`if 1 < len(sstack)-i { left = sstack[i+1] }`), so `total_current` holds for ANY cell sequence. For
+the templates `Equation.buildScript` lays out that default is never taken: -/
+
+/-- at every operator cell the evaluated tail holds at least as many cells as the operator has operands -/
+def noUnderflow (d : Dev) (rx : RxEngine) : List SItem → Bool
+  | [] => true
+  | .val _ :: rest => noUnderflow d rx rest
+  | .op o :: rest =>
+    noUnderflow d rx rest &&
+      (match evalStack d rx rest with
+       | .ok t => decide (o.cnt ≤ t.length)
+       | .error _ => true)
+
+theorem flattenS_length_pos (c : Tm) : 1 ≤ (flattenS c).length := by
+  cases c <;> simp [flattenS] <;> split <;> simp
+
+theorem noUnderflow_op (d : Dev) (rx : RxEngine) (o : Op) (X : List SItem)
+    (h1 : noUnderflow d rx X = true) (h2 : o.cnt ≤ X.length) : noUnderflow d rx (.op o :: X) = true := by
+  simp only [noUnderflow, h1, Bool.true_and]
+  cases hs : evalStack d rx X with
+  | error f => rfl
+  | ok t =>
+    have := evalStack_length d rx X t hs
+    simp only [decide_eq_true_eq]
+    omega
+
+/-- the prefix program of ANY expression tree (operand padding as `buildScript` does it) in front of
+cells that do not underflow does not underflow -/
+theorem noUnderflow_flattenS (d : Dev) (rx : RxEngine) (c : Tm) :
+    ∀ rest, noUnderflow d rx rest = true → noUnderflow d rx (flattenS c ++ rest) = true := by
+  induction c with
+  | const v => intro rest h; simpa [flattenS, noUnderflow] using h
+  | path p => intro rest h; simpa [flattenS, noUnderflow] using h
+  | app1 o a iha =>
+    intro rest h
+    have hpos := flattenS_length_pos a
+    rcases Op.cnt_cases o with hc | hc
+    · have hf : flattenS (.app1 o a) ++ rest = .op o :: (flattenS a ++ rest) := by simp [flattenS, hc]
+      rw [hf]
+      exact noUnderflow_op d rx o _ (iha rest h) (by simp only [List.length_append]; omega)
+    · have hne : ¬ o.cnt = 1 := by omega
+      have hf : flattenS (.app1 o a) ++ rest = .op o :: (flattenS a ++ (.val .null :: rest)) := by
+        simp [flattenS, hne]
+      rw [hf]
+      exact noUnderflow_op d rx o _ (iha _ (by simpa [noUnderflow] using h))
+        (by simp only [List.length_append, List.length_cons]; omega)
+  | app2 o a b iha ihb =>
+    intro rest h
+    have hpa := flattenS_length_pos a
+    have hpb := flattenS_length_pos b
+    rcases Op.cnt_cases o with hc | hc
+    · have hf : flattenS (.app2 o a b) ++ rest = .op o :: (flattenS a ++ rest) := by simp [flattenS, hc]
+      rw [hf]
+      exact noUnderflow_op d rx o _ (iha rest h) (by simp only [List.length_append]; omega)
+    · have hne : ¬ o.cnt = 1 := by omega
+      have hf : flattenS (.app2 o a b) ++ rest = .op o :: (flattenS a ++ (flattenS b ++ rest)) := by
+        simp [flattenS, hne]
+      rw [hf]
+      exact noUnderflow_op d rx o _ (iha _ (ihb rest h))
+        (by simp only [List.length_append]; omega)
+
+/-- for every well-formed script tree, on either route (`Script()` / `Filter()`), every stack the element
+loop hands to `evalStack` — one per combination of the multi-valued operands — never underflows: the
+`getD` default of the model (the nil of a missing operand in Go) is never taken -/
+theorem no_underflow (d : Dev) (rx : RxEngine) (t : Tm) (hwf : t.wf = true) (wrap : Bool) (elem root : Val) :
+    ∀ x ∈ prod (resolve elem root false (compile wrap t)), noUnderflow d rx x = true := by
+  have main : ∀ x ∈ prod (resolve elem root false (compile true t)), noUnderflow d rx x = true := by
+    intro x hx
+    have hr := resolve_flatten elem root _ (wf_normalise t hwf) []
+    simp only [List.append_nil, resolve] at hr
+    rw [compile_true, hr, prod_rflat elem root _ (wf_normalise t hwf), List.mem_map] at hx
+    obtain ⟨c, _, rfl⟩ := hx
+    simpa using noUnderflow_flattenS d rx c [] rfl
+  cases wrap
+  · cases hb : isPath t
+    · rw [match_filter t hb]; exact main
+    · cases t with
+      | path p =>
+        intro x hx
+        simp only [compile, Bool.false_eq_true, ↓reduceIte, resolve] at hx
+        rw [prod_path, List.mem_map] at hx
+        obtain ⟨v, _, rfl⟩ := hx
+        rfl
+      | const v => simp [isPath] at hb
+      | app1 o a => simp [isPath] at hb
+      | app2 o a b => simp [isPath] at hb
+  · exact main
+
+/-- a malformed cell sequence does underflow (and still evaluates, the missing operand reading as nil) -/
+example : noUnderflow Dev.current rx0 [.op .eq, .val (.int 1)] = false := by decide +kernel
+
+
+/-- evaluation of any non-empty program on any element never faults — for ANY cell sequence, well-formed
+or not: a missing operand reads as nil, as in the Go loop; `no_underflow` shows that this default is
+never taken on the templates `compile` produces -/
 theorem total_current (rx : RxEngine) (prog : List Item) (hne : prog ≠ []) (elem root : Val) :
     ∃ b, matchElem Dev.current rx prog elem root = .ok b :=
   total_fixed Dev.current rfl rx prog hne elem root
